@@ -121,7 +121,7 @@ struct CrcSim
         for (size_t i = 0; i < pos; ++i) { b = b * 131u + m[i]; s = s * 65599u + m[i]; }
         if (hb != b) return c.fail("hash-running-value-wrong", "a_hash_bkdr_", "after %s at byte %zu: %x, definition gives %x", when, pos, hb, b);
         if (hs != s) return c.fail("hash-running-value-wrong", "a_hash_sdbm_", "after %s at byte %zu: %x, definition gives %x", when, pos, hs, s);
-        if (nulfree && (hbs != b || hss != s)) return c.fail("hash-string-form-disagrees", "a_hash_bkdr", "C-string form and length-delimited form disagree after %zu bytes", pos);
+        if (nulfree && (hbs != b || hss != s)) return c.fail("hash-string-form-disagrees", hbs != b ? "a_hash_bkdr" : "a_hash_sdbm", "C-string form and length-delimited form disagree after %zu bytes", pos);
         c.obs(vm); c.obs(vl); c.obs(hb); c.obs(hs);
         return true;
     }
